@@ -18,11 +18,24 @@ type solverSpec struct {
 }
 
 var solvers = []solverSpec{
-	{"z3-new-5.1.0", func(f string, s int) []string { return []string{"z3-new", fmt.Sprintf("-T:%d", s), f} }},
+	{"z3-new-5.1.0", func(f string, s int) []string { return append([]string{"z3-new", fmt.Sprintf("-T:%d", s)}, append(z3Seed(), f)...) }},
 	{"cvc5-1.0", func(f string, s int) []string {
-		return []string{"cvc5", "--lang=smt2", fmt.Sprintf("--tlimit=%d", s*1000), f}
+		a := []string{"cvc5", "--lang=smt2", fmt.Sprintf("--tlimit=%d", s*1000)}
+		if sd := os.Getenv("EVYVC_SOLVER_SEED"); sd != "" {
+			a = append(a, "--seed="+sd)
+		}
+		return append(a, f)
 	}},
-	{"z3-4.8.12", func(f string, s int) []string { return []string{"z3", fmt.Sprintf("-T:%d", s), f} }},
+	{"z3-4.8.12", func(f string, s int) []string { return append([]string{"z3", fmt.Sprintf("-T:%d", s)}, append(z3Seed(), f)...) }},
+}
+
+// z3Seed: EVYVC_SOLVER_SEED perturbs the solvers' random seeds (stability sweeps: a proof that only goes through for
+// one seed is an unstable proof and a false alarm waiting to happen).
+func z3Seed() []string {
+	if sd := os.Getenv("EVYVC_SOLVER_SEED"); sd != "" {
+		return []string{"smt.random_seed=" + sd, "sat.random_seed=" + sd}
+	}
+	return nil
 }
 
 func runSolver(sv solverSpec, file string, secs int) (status, out string, dur float64) {
